@@ -519,7 +519,7 @@ macros[Profiles.CSS_LEVEL_2] = {
     'background-position': r'({percentage}|{length}|left|center|right)(\s*({percentage}|{length}|top|center|bottom))?|((top|center|bottom)\s*(left|center|right)?)|((left|center|right)\s*(top|center|bottom)?)|inherit',
     'background-repeat': r'repeat|repeat-x|repeat-y|no-repeat|inherit',
     'background-attachment': r'scroll|fixed|inherit',
-    'shape': r'rect\(({w}({length}|auto}){w},){3}{w}({length}|auto){w}\)',
+    'shape': r'rect\(({w}({length}|auto){w},){3}{w}({length}|auto){w}\)',
     'counter': r'counter\({w}{ident}{w}(?:,{w}{list-style-type}{w})?\)',
     'identifier': r'{ident}',
     'family-name': r'{string}|({ident}(\s+{ident})*)',
